@@ -315,7 +315,7 @@ MANIFEST_TEXT = {
     "C08": {
         "technique": "Lean 4 theorem: the model requirement parser applied to the model Display of every well-formed requirement value returns that value (name, extras, the exact texts handed to the external specifier / URL parsers with their spans, marker as the marker parser reads it) and never rejects it; Display model compared with to_string() on every accepted requirement; round-trip oracle (Display, re-render, serde_json both ways)",
         "text": "roundtrip / roundtrip_marker / calls / calls_spans / never_rejected over all ReqVal satisfying the explicit predicate ReqVal.WF (what the printers of a parsed requirement guarantee); the two exclusions are proved necessary (url_semicolon_marker_rejected: F20; archive_name_rejected); implementation-level round trips of every accepted generated requirement, marker compared by equivalence only inside the property's carve-out.",
-        "note": _NOTE + "partial: the theorem covers the glue (separators, token boundaries, URL end, blank before `;`); that pep440_rs / url re-parse their own printed texts to equal values, and that the marker text re-parses to the same marker (C05), are hypotheses of the theorem and are decided by the implementation-level oracle; the unnamed form (extension feature) is oracle-only.",
+        "note": _NOTE + "partial: the theorem covers the glue (separators, token boundaries, URL end, blank before `;`); that pep440_rs / url re-parse their own printed texts to equal values, and that the marker text re-parses to the same marker (C05), are hypotheses of roundtrip_marker; C08b (Proofs/Compose.lean) discharges the marker hypothesis by composing the marker layout theorem (C01b) with the marker Display round trip (C05b): requirement_roundtrip_full returns the same DIAGRAM for every printable diagram with separated bounds, requirement_roundtrip_false is the FALSE carve-out, unnamed_roundtrip_full the unnamed form (model compared with the extension build in the thorough tier); that pep440_rs / url re-parse their own printed texts stays external (implementation-level oracle).",
     },
     "C14": {
         "technique": "Lean 4 refinement proof: the id-level interner (append-only arena = unique table, AND memo cache, complemented edges, create_node normalisation) refines the "
@@ -324,12 +324,12 @@ MANIFEST_TEXT = {
                 "andI_same_id, andI_history_independent, createNodeI_spec, internTree_spec. Every observable that is a function of diagrams is therefore history independent. The "
                 "driver runs the id-level model on warmed arenas for every case; fresh-process histories compare dumps, DNF, text, ==, cmp; spelling differences are K1.",
         "note": _NOTE + "the id-level model's tie to the Rust interner is structural (read from the code) plus the history oracle: NodeIds are not observable; FxHashMap / boxcar are "
-                        "assumed to be a correct map / append-only vector; restrict/simplify/complexify at id level go through create_node only (create_node_refines).",
+                        "assumed to be a correct map / append-only vector; C14b models restrict / not / is_disjoint on ids (restrict_refines, restrict_history_independent, is_disjoint_refines) and proves that a restrict memo keyed by the node alone breaks the refinement (seeded_bug_*); simplify/complexify_python_versions at id level go through create_node only (create_node_refines) and are otherwise modelled at diagram level (C12).",
     },
     "C15": {
         "technique": "Lean 4 theorems over schedules of atomic interner steps (any interleaving): per-thread results equal the sequential ones, racing creations get the same id; "
                      "racing-threads oracle with barrier release, fresh literals and a deadlock watchdog",
-        "text": "schedule_inv, step_result_independent_of_interleaving, racing_threads_same_id over arbitrary schedules (lists of steps by any threads), from the C14 refinement; that each "
+        "text": "schedule_inv, step_result_independent_of_interleaving, racing_threads_same_id over arbitrary schedules (lists of steps by any threads), from the C14 refinement; the primed versions for schedules that also contain restrict steps (C14b); that each "
                 "public mutating call is one atomic step (the mutex is held for the whole recursion) is read from the code, not proved. 2/8/16 threads racing on identical fresh nodes "
                 "are compared with each other and with a sequential fresh process.",
         "note": _NOTE + "partial by nature: memory ordering of lock-free reads, Mutex deadlock-freedom and the claim that the lock spans the whole recursion are outside the model.",
@@ -388,14 +388,14 @@ MANIFEST_TEXT = {
                      "+ differential Lean model of the whole requirement parser + derivation x layout oracle",
         "text": "layout_accepted / layout_accepted_marker / layout_calls / whitespace_irrelevant over all values satisfying ReqVal.WFL and all layouts (13 independent whitespace runs, parenthesised or bare) satisfying the grammar's mandatory separator (Layout.Fits: a blank between URL and `;`; a URL ending in `;`/`#` takes no trailing blank — proved necessary by url_semicolon_glued_swallows_marker / trailing_blank_after_url_semicolon_changes_outcome); the texts handed to the external specifier parser are the specifier texts up to surrounding blanks (recorded_texts_trim). "
                 "Derivations x layouts generated by the harness are accepted with exactly the derivation's components by the implementation; every outcome matches the model including error spans.",
-        "note": _NOTE + "partial: the marker parser's result on the marker text is a hypothesis of the theorem (the marker grammar is C01/C17); pep440_rs accepting a specifier text with surrounding blanks is external; `===` inside markers is a known finding (K2).",
+        "note": _NOTE + "the marker parser's result on the marker text is a hypothesis of layout_accepted_marker and is a theorem in C08b requirement_layout_full for every well-formed layout of a marker derivation whose atoms are `key op 'v'` / `'v' op key` (word-operator atoms stay a hypothesis AtomsOK); pep440_rs accepting a specifier text with surrounding blanks is external; `===` inside markers is a known finding (K2).",
     },
     "C12": {
         "technique": "Lean 4 theorems: complexify = AND with the range marker (meaning for all bounds; identity of diagrams via the canonicity theorem), simplify agrees inside R, "
                      "both preserve well-formedness and cannot hit their unwrap/assert sites + one-step correspondence and identity oracles",
         "text": "complexify_eval / simplify_eval_inside for every well-formed marker and every pair of bounds; complexify_eq_and, complexify_simplify, complexify_congr, simplify_congr (agree on R => equal simplifications), simplify_complexify, simplify_idem as "
                 "identities of diagrams (canonicity, dense orders); simplify_eval_below / above (what simplify does outside R); wf preservation and non-emptiness of the kept edge run; for empty / inverted R the identities are proved false and the exact behaviour stated.",
-        "note": _NOTE + "the identities that go through canonicity (complexify_eq_and, complexify_simplify, complexify_congr, simplify_congr, simplify_complexify, simplify_idem) are proved for dense orders without end points (witnessed at Rat); at the model's own value type Val that class does not hold (C03b) and simplify_congr fails at the version-0 / adjacent-string shapes (NonVacuityA: simplify_congr_fails_at_Val); the meaning theorems (complexify_eval, simplify_eval_inside, wf preservation, panic freedom) need no such assumption. Empty R: proved negations.",
+        "note": _NOTE + "the identities that go through canonicity (complexify_eq_and, complexify_simplify, complexify_congr, simplify_congr, simplify_complexify, simplify_idem) are proved for dense orders without end points (witnessed at Rat); at the model's own value type Val that class does not hold (C03b) and simplify_congr fails at the version-0 / adjacent-string shapes (NonVacuityA: simplify_congr_fails_at_Val); the meaning theorems (complexify_eval, simplify_eval_inside, wf preservation, panic freedom) need no such assumption. C12c: complexify_eq_and_all, complexify_simplify_all, simplify_complexify_all, simplify_idem_uncond hold over EVERY linear order (transfer along an order embedding into a dense order), so they hold at Val unconditionally; the congruences hold at Val for separated bounds (*_val) and the separation is proved necessary (*_needs_sep_*). Empty R: proved negations.",
     },
     "C04": {
         "technique": "Lean 4 theorems: is_disjoint is sound for every environment, symmetric, and equals (and == FALSE) (fuel induction mirroring the recursion) + verdict correspondence",
@@ -413,7 +413,7 @@ MANIFEST_TEXT = {
         "technique": "Lean 4 theorem: evalExtras is an over-approximation of evaluation for every diagram (no well-formedness needed) + bit correspondence + existential oracle",
         "text": "evalExtras_sound: if any environment consistent with the extras satisfies the diagram then evaluate_extras answers true; contrapositive for false; evaluate_extras_iff_partial / evaluate_extras_exact: exact when every edge interval is inhabited. "
                 "evaluate_extras_and_python_version is the same function on reachable diagrams (python_version nodes never exist).",
-        "note": _NOTE + "soundness holds for every diagram and value type; exactness is proved under 'every edge interval of the diagram is inhabited' (evaluate_extras_iff_partial, usable at Val) or for dense orders; it fails for a diagram with the valid-but-empty edge (-inf, version 0) (NonVacuityA: evaluate_extras_exact_fails_at_Val), which is outside 'variables independent'.",
+        "note": _NOTE + "soundness holds for every diagram and value type; exactness is proved under 'every edge interval of the diagram is inhabited' (evaluate_extras_iff_partial, usable at Val) or for dense orders; it fails for a diagram with the valid-but-empty edge (-inf, version 0) (NonVacuityA: evaluate_extras_exact_fails_at_Val), which is outside 'variables independent'; C13c evaluate_extras_iff_val: exact at Val for every well-formed diagram with separated bounds.",
     },
     "C20": {
         "technique": "Lean 4 theorems: the executable C20 predicate Tree.wf is preserved by and/or/not (product of partitions is a partition, coalescing restores "
